@@ -233,6 +233,7 @@ func (c19) Exec(sc *sim.Scenario, env *sim.Env) *sim.Violation {
 			out := m.step(op)
 			panicked, msg := asmApply(e, op)
 			after := snapEmitter(e)
+			resyncFlags(m, e, op, out)
 			st.SimOps++
 			if v := accessorViolation(after, i, op); v != nil {
 				return v
